@@ -13,6 +13,8 @@
 //!       ok = for every operator that reports the metric and whose output was consumed in full (every executed partition read to the
 //!       end): reported == sum(counted).  Mismatches on operators whose consumer stopped early are listed in "early" (not failures:
 //!       the property text restricts itself to fully consumed outputs).
+//!       A third of the operator trees run under a small memory pool (600..12000 bytes, field "opts" = the limit) so that sorts /
+//!       aggregates / repartitions spill; "spill" = [spill_count, spilled_rows] of the node (reported for coverage only).
 //!   c53 --seed S --n N [--case ID] [--explain]
 #[path = "../refsql_gen.rs"]
 mod refsql_gen;
@@ -115,7 +117,7 @@ fn gen_hist(rng: &mut Rng) -> Vec<Ev> {
 }
 
 // ------------------------------------------------------------------------------------------------ plans
-struct NodeObs { name: String, rep: Option<usize>, rep_pp: Vec<(usize, usize)>, cnt: Vec<usize>, ended: Vec<bool>, exec: Vec<usize>, kids: Vec<usize> }
+struct NodeObs { spill: (usize, usize), name: String, rep: Option<usize>, rep_pp: Vec<(usize, usize)>, cnt: Vec<usize>, ended: Vec<bool>, exec: Vec<usize>, kids: Vec<usize> }
 
 enum Status { Ok(Vec<NodeObs>, usize, usize), PlanErr(String), ExecErr(String) }
 
@@ -135,7 +137,7 @@ async fn observe(plan: Arc<dyn ExecutionPlan>, tctx: Arc<TaskContext>, explain: 
                 if let MetricValue::OutputRows(c) = x.value() { rep_pp.push((x.partition().unwrap_or(usize::MAX), c.value())); }
             }
         }
-        nodes.push(NodeObs { name: p.node.name().to_string(), rep, rep_pp, cnt: p.counter.rows(), ended: p.counter.ended(), exec: p.counter.executed(), kids: p.kids.clone() });
+        nodes.push(NodeObs { spill: (ms.as_ref().and_then(|m| m.spill_count()).unwrap_or(0), ms.as_ref().and_then(|m| m.spilled_rows()).unwrap_or(0)), name: p.node.name().to_string(), rep, rep_pp, cnt: p.counter.rows(), ended: p.counter.ended(), exec: p.counter.executed(), kids: p.kids.clone() });
     }
     Status::Ok(nodes, root_id, total)
 }
@@ -158,8 +160,8 @@ fn plan_line(id: usize, stream: &str, tp: usize, bs: usize, opts: usize, desc: &
             }
             let root_ok = nodes[root].cnt.iter().sum::<usize>() == total;
             let nj: Vec<String> = nodes.iter().enumerate().map(|(i, n)| format!(
-                "{{\"id\":{i},\"name\":{},\"rep\":{},\"rep_pp\":[{}],\"cnt\":{:?},\"ended\":{:?},\"exec\":{:?},\"kids\":{:?}}}",
-                json_str(&n.name), n.rep.map(|x| x.to_string()).unwrap_or("null".into()),
+                "{{\"id\":{i},\"spill\":[{},{}],\"name\":{},\"rep\":{},\"rep_pp\":[{}],\"cnt\":{:?},\"ended\":{:?},\"exec\":{:?},\"kids\":{:?}}}",
+                n.spill.0, n.spill.1, json_str(&n.name), n.rep.map(|x| x.to_string()).unwrap_or("null".into()),
                 n.rep_pp.iter().map(|(p, v)| format!("[{},{}]", if *p == usize::MAX { -1 } else { *p as i64 }, v)).collect::<Vec<_>>().join(","),
                 n.cnt, n.ended, n.exec, n.kids)).collect();
             format!("{head},\"status\":\"ok\",\"root\":{root},\"total\":{total},\"nodes\":[{}],\"bad\":{:?},\"early\":{:?},\"ok\":{}}}",
@@ -188,18 +190,23 @@ fn run_sql(id: usize, stream: &str, tabs: &[Tab], sql: &str, tp: usize, bs: usiz
     plan_line(id, stream, tp, bs, opts, sql, st)
 }
 
-fn run_tree(id: usize, stream: &str, plan: Result<Arc<dyn ExecutionPlan>, String>, desc: &str, bs: usize, explain: bool) -> String {
+fn run_tree(id: usize, stream: &str, plan: Result<Arc<dyn ExecutionPlan>, String>, desc: &str, bs: usize, mem: Option<usize>, explain: bool) -> String {
     let st = match plan {
         Err(e) => Ok(Status::PlanErr(e)),
         Ok(p) => {
             let r = attempt(20, move || async move {
-                let ctx = SessionContext::new_with_config(SessionConfig::new().with_batch_size(bs).with_target_partitions(2));
+                let cfg = SessionConfig::new().with_batch_size(bs).with_target_partitions(2).set_str("datafusion.execution.sort_spill_reservation_bytes", "0");
+                let ctx = match mem {
+                    // a small memory pool: sorts, aggregates and repartitions spill (or the plan fails with ResourcesExhausted = exec_err, skipped)
+                    Some(m) => SessionContext::new_with_config_rt(cfg, datafusion::execution::runtime_env::RuntimeEnvBuilder::new().with_memory_limit(m, 1.0).build_arc().unwrap()),
+                    None => SessionContext::new_with_config(cfg),
+                };
                 observe(p, ctx.task_ctx(), explain).await
             });
             match r { Attempt::Done(s) => Ok(s), Attempt::Panic(m) => Err(format!("panic: {}", m.chars().take(200).collect::<String>())), Attempt::Hang => Err("hang".to_string()) }
         }
     };
-    plan_line(id, stream, 2, bs, 0, desc, st)
+    plan_line(id, stream, 2, bs, mem.unwrap_or(0), desc, st)
 }
 
 fn witness_tabs() -> Vec<Tab> {
@@ -234,7 +241,7 @@ fn main() {
         let mut g = TreeGen { rng: &mut r, desc: vec![], bs: 2 };
         let plan = witness_tree(&mut g, ws).map_err(|e| e.to_string());
         let desc = g.desc.join(" ; ");
-        if want(wid) { println!("{}", run_tree(wid, &format!("witness:tree{ws}"), plan, &desc, 2, explain)); }
+        if want(wid) { println!("{}", run_tree(wid, &format!("witness:tree{ws}"), plan, &desc, 2, None, explain)); }
         wid += 1;
     }
 
@@ -273,7 +280,8 @@ fn main() {
                 let mut g = TreeGen { rng: &mut rng, desc: vec![], bs };
                 let plan = g.tree(d).map_err(|e| e.to_string());
                 let desc = g.desc.join(" ; ");
-                if want(i) { println!("{}", run_tree(i, "tree", plan, &desc, bs, explain)); }
+                let mem = if rng.chance(1, 3) { Some(*rng.pick(&[600usize, 1500, 4000, 12000])) } else { None };
+                if want(i) { println!("{}", run_tree(i, if mem.is_some() { "tree_mem" } else { "tree" }, plan, &desc, bs, mem, explain)); }
             }
         }
     }
